@@ -570,6 +570,7 @@ def run_traced(cfg, max_batches=400):
         t_start = _time.time()
         step_rng = np.random.default_rng(cfg['seed'] + 29)
         toggle_dirty = False
+        ee_resumed = False
         while not done and k < est_batches and _time.time() - t_start < cfg.get('max_seconds', 25):
             nl0 = int(s.n_like)
             stride = 1
@@ -610,8 +611,14 @@ def run_traced(cfg, max_batches=400):
             tr.returns.append((nl0, int(s.n_like), bool(done), lim, timeout, pred))
             if int(s.n_like) != nl0:
                 toggle_dirty = False        # a batch ran: write_shell_update has persisted the flag
-            while resume_at and resume_at[0] <= k and path is not None and os.path.exists(path) and not toggle_dirty:
-                resume_at.pop(0)
+            # scheduled resumes, plus one right after exploration has ended (empty shells have just been removed and the
+            # file renumbered) whenever the configuration resumes at all
+            while ((resume_at and resume_at[0] <= k) or (cfg.get('resumes', 0) > 0 and s.explored and not ee_resumed)) \
+                    and path is not None and os.path.exists(path) and not toggle_dirty:
+                if resume_at and resume_at[0] <= k:
+                    resume_at.pop(0)
+                if s.explored:
+                    ee_resumed = True
                 old_bids = [tr.bid(b) for b in s.bounds]
                 old_tables = {tr.bid(b): b for b in s.bounds}
                 p2 = os.path.join(tmp, 'ck_resume_%d.hdf5' % k)
